@@ -437,6 +437,17 @@ def oracle_run(suite, seed, tier, feats=('v3', 'v2', 'alt')):
             sh("rm -rf %s" % d)
         return res
 
+def reach_stats():
+    """sizes of the closed reachable sets: [(states, macro steps)] per configuration, printed by Proof/Stats.v"""
+    key = os.path.join(WORK, 'stats-' + tree_hash([os.path.join(COQ, 'Proof'), os.path.join(COQ, 'Spec')]) + '.json')
+    if os.path.exists(key):
+        return json.load(open(key))
+    r = sh("cd %s && timeout 600 coqc -Q . EPD Proof/Stats.v" % COQ)
+    st = [(int(a), int(b)) for a, b in re.findall(r'\(\s*(\d+),\s*(\d+)\)', r.stdout)]
+    if st:
+        json.dump(st, open(key, 'w'))
+    return st
+
 def known_sync_problem():
     r = sh("cd %s && python3 tools/gen_known.py --check" % ROOT)
     return None if r.returncode == 0 else "coq/Spec/Known.v is out of sync with known_findings.txt (run tools/gen_known.py)"
